@@ -192,6 +192,9 @@ func runC12(w *World, r *Report, tier string) {
 		cons := w.funcKey(f) + "#start:recv+keepalive"
 		ok := len(recvs) == 1 && len(kas) == 1
 		detail := fmt.Sprintf("%d recv start(s), %d keepalive start(s)", len(recvs), len(kas))
+		if ok && (len(recvs[0].Common().Args) < 2 || len(kas[0].Common().Args) < 3) {
+			ok, detail = false, "the receive loop is not handed the keepalive's quit channel when it is started: the channel it closes when it ends is whatever a field holds by then (after a reconnection from the Disconnected handler, the next session's)"
+		}
 		if ok {
 			ch1 := chanOrigin(recvs[0].Common().Args[1])
 			ch2 := chanOrigin(kas[0].Common().Args[2])
